@@ -61,7 +61,15 @@ def normalise(prog):
     of the drawn program), with channel references resolved to names."""
     it = build.Interp(prog)
     if prog["register"].get("mappable"):
-        return prog  # concrete outcome depends on the mapping; keep as drawn
+        # concrete outcome depends on the mapping; keep as drawn - except that nothing
+        # follows a measurement (a template accepts calls after measure(): the C13 known
+        # finding, not this property's subject)
+        ops = []
+        for op in prog["ops"]:
+            ops.append(op)
+            if op["op"] == "measure":
+                break
+        return dict(prog, ops=ops)
     ops = []
     for op in prog["ops"]:
         op2 = resolve_names(it, op)
